@@ -177,8 +177,15 @@ Definition step_data (c : conn) (id dlen pad : Z) (es : bool) : conn * list evt 
   | None => data_closed c id L
   end.
 
-(* kind: 0 = complete POST request pseudo-headers, 1 = no pseudo-headers, 2 = HEAD request *)
+(* kind: 0 = complete POST request pseudo-headers, 1 = no pseudo-headers, 2 = HEAD request,
+   3 = CONNECT with :authority only, 4 = CONNECT with :path, 5 = :scheme ftp, 6 = :path missing,
+   7 = header block with an upper-case field name (rejected by Framer.readMetaFrame before processHeaders).
+   Whether the block arrives as HEADERS or HEADERS+CONTINUATION makes no difference (dec_op). *)
+Definition malformed (kind : Z) (es : bool) : bool :=          (* newWriterAndRequest returns a StreamError *)
+  (kind =? 1) || ((kind =? 2) && negb es) || ((4 <=? kind) && (kind <=? 6)).
 Definition step_headers (c : conn) (id : Z) (es : bool) (kind clen : Z) : conn * list evt :=
+  if id =? 0 then goaway c 1 else                             (* Framer: HEADERS on stream 0 *)
+  if kind =? 7 then do_reset c id 1 [] else                    (* Framer: StreamError PROTOCOL_ERROR, stream reset if it exists *)
   if negb (id mod 2 =? 1) then goaway c 1 else
   match find_live id (c_streams c) with
   | Some st =>
@@ -198,7 +205,7 @@ Definition step_headers (c : conn) (id : Z) (es : bool) (kind clen : Z) : conn *
     let st := mkS id (if es then 2 else 1) (c_isw c) false 0 0 false 0 0 false false in
     let c1 := mkC id (st :: c_streams c) (c_cur c + 1) (c_adv c) (c_inflow c) (c_isw c) (c_dead c) (c_bug c) (c_p3 c) in
     if c_adv c <? c_cur c1 then closeconn c1                   (* maxStreamsError: connection closed without GOAWAY *)
-    else if (kind =? 1) || ((kind =? 2) && negb es) then do_reset c1 id 1 []   (* newWriterAndRequest: malformed *)
+    else if malformed kind es then do_reset c1 id 1 []          (* newWriterAndRequest: malformed *)
     else
       let st2 := mkS id (if es then 2 else 1) (c_isw c) (negb es) 0 0 false
                      (if es then 0 else if 0 <=? clen then clen else -1) 0 false true in
@@ -273,7 +280,49 @@ Inductive op :=
 | ORead (id k : Z)
 | OCloseBody (id : Z)
 | OFinish (id : Z)
-| OPush (id : Z).
+| OPush (id : Z)
+| ORace (id ik a b : Z).      (* handler of [id] returns; while its final frame is in flight in the writer goroutine
+                                 the serve loop processes one client frame (ik 3: RST_STREAM(id, code a),
+                                 4: WINDOW_UPDATE(a, b), 5: SETTINGS initial window a); then wroteFrame *)
+
+(* startFrameWrite and wroteFrame as two serve-loop steps with a client frame in between.
+   wroteFrame (after a frame with END_STREAM): stream still open -> RST_STREAM(NO_ERROR) + closeStream;
+   half-closed(remote) -> closeStream; ALREADY CLOSED (reset while the frame was in flight) -> nothing.
+   If the stream is closed before the handler returns, its final frame is skipped (nothing in flight). *)
+(* the client frame processed while the final frame is in flight: RST_STREAM on the same stream
+   (processResetStream: the stream object exists, so its id is not idle; closed already -> ignored);
+   WINDOW_UPDATE / SETTINGS touch outbound windows only *)
+Definition race_inner (c1 : conn) (id ik : Z) : option conn :=
+  if ik =? 3 then
+    match find_live id (c_streams c1) with
+    | Some s => close_stream c1 s
+    | None => Some c1
+    end
+  else Some c1.
+
+Definition step_race (c : conn) (id ik : Z) : conn * list evt :=
+  match find_stream id (c_streams c) with
+  | Some st =>
+    if negb (s_run st) then (c, [(6, id, -3)])
+    else
+      let c1 := upd c (set_run st false) in
+      match race_inner c1 id ik with
+      | None => bugout c
+      | Some c2 =>
+        if s_state st =? 3 then (c2, [(6, id, 0)])          (* final frame skipped: nothing in flight *)
+        else
+          match find_stream id (c_streams c2) with
+          | Some st2 =>
+            if s_state st2 =? 3 then (c2, [(3, id, 401); (6, id, 0)])
+            else match close_stream c2 st2 with
+                 | None => bugout c
+                 | Some c3 => (c3, (if s_state st2 =? 1 then [(2, id, 0)] else []) ++ [(3, id, 401); (6, id, 0)])
+                 end
+          | None => bugout c
+          end
+      end
+  | None => (c, [(6, id, -3)])
+  end.
 
 Definition step (c : conn) (o : op) : conn * list evt :=
   match o with
@@ -286,6 +335,7 @@ Definition step (c : conn) (o : op) : conn * list evt :=
   | OCloseBody id => step_closebody c id
   | OFinish id => step_finish c id
   | OPush _ => goaway c 1
+  | ORace id ik _ _ => step_race c id ik
   end.
 
 Definition init_conn (isw maxs : Z) : conn :=
@@ -305,7 +355,7 @@ Fixpoint run_ops (c : conn) (ops : list op) {struct ops} : conn * list (list evt
 (* well-formed script values (what the generators produce; the theorems assume it) *)
 Definition wf_op (o : op) : bool :=
   match o with
-  | OHeaders id _ kind clen => (0 <=? id) && (id <? 2147483648) && (0 <=? kind) && (kind <=? 2) && (-1 <=? clen) && (clen <? 1000000000)
+  | OHeaders id _ kind clen => (0 <=? id) && (id <? 2147483648) && (0 <=? kind) && (kind <=? 7) && (-1 <=? clen) && (clen <? 1000000000)
   | OData id dlen pad _ => (0 <=? id) && (id <? 2147483648) && (0 <=? dlen) && (-1 <=? pad) && (pad <=? 255) && (frame_len dlen pad <=? 1000000)
   | ORst id code => (0 <=? id) && (id <? 2147483648) && (0 <=? code) && (code <? 256)
   | OWinUpd id inc => (0 <=? id) && (id <? 2147483648) && (1 <=? inc) && (inc <=? 1000)
@@ -314,6 +364,11 @@ Definition wf_op (o : op) : bool :=
   | OCloseBody id => 0 <=? id
   | OFinish id => 0 <=? id
   | OPush id => (1 <=? id) && (id <? 2147483648)
+  | ORace id ik a b =>
+    (1 <=? id) && (id <? 2147483648) &&
+    ((ik =? 3) && (0 <=? a) && (a <? 256)
+     || (ik =? 4) && (0 <=? a) && (a <? 2147483648) && (1 <=? b) && (b <=? 1000)
+     || (ik =? 5) && (0 <=? a) && (a <=? 1048576))
   end.
 Definition wf_cfg (isw maxs : Z) : bool := (0 <=? isw) && (isw <=? 1000000) && (0 <=? maxs) && (maxs <=? 1000).
 
@@ -329,7 +384,7 @@ Proof. reflexivity. Qed.
 Definition dec_op (v : val) : option op :=
   match as_LZ v with
   | Some [o; a; b; c; d] =>
-    if o =? 1 then Some (OHeaders a (negb (b =? 0)) c d)
+    if o =? 1 then (if (0 <=? c) && (c <? 18) then Some (OHeaders a (negb (b =? 0)) (c mod 10) d) else None)
     else if o =? 2 then Some (OData a b c (negb (d =? 0)))
     else if o =? 3 then Some (ORst a b)
     else if o =? 4 then Some (OWinUpd a b)
@@ -338,6 +393,7 @@ Definition dec_op (v : val) : option op :=
     else if o =? 7 then Some (OCloseBody a)
     else if o =? 8 then Some (OFinish a)
     else if o =? 9 then Some (OPush a)
+    else if o =? 10 then Some (ORace a b c d)
     else None
   | _ => None
   end.
